@@ -1,14 +1,18 @@
 #!/bin/sh
-# tools/seed_run.sh <seed-id> [check args...]: apply seeded change to /repo, run the property's quick check, undo.
-# Evidence files are restored afterwards (evidence must come from the unchanged tree).
+# tools/seed_run.sh <seed-id> [check args...]: run the property's quick check against a scratch worktree of /repo
+# with the seeded change applied (VERIF_REPO points the checks at it; /repo itself is not touched, so several
+# seeds can run side by side).  Evidence files are restored afterwards (evidence must come from the unchanged tree).
 SID=$1; shift
 PID=$(echo $SID | cut -d- -f1)
+case $PID in B*) PID=$1; shift;; esac
 cd /verif
-git -C /repo status --short | grep -q . && { echo "/repo not clean"; exit 9; }
-git -C /repo apply /verif/seeded/$SID/patch.diff || exit 8
+WT=/tmp/wt-seed-$SID-$$
+git -C /repo worktree add -q --detach $WT HEAD || exit 9
+git -C $WT apply /verif/seeded/$SID/patch.diff || { git -C /repo worktree remove --force $WT; exit 8; }
 if [ $# -eq 0 ]; then set -- $PID; fi
-./check "$@" > /tmp/seedrun-$SID.log 2>&1; rc=$?
-git -C /repo checkout -- . ; git -C /repo clean -fdq
+LOG=/tmp/seedrun-$SID-$1.log
+VERIF_REPO=$WT ./check "$@" > $LOG 2>&1; rc=$?
+git -C /repo worktree remove --force $WT
 git -C /verif checkout -- evidence 2>/dev/null
-echo "$SID: exit=$rc $(grep -c '^VIOLATION' /tmp/seedrun-$SID.log) violation lines; $(tail -1 /tmp/seedrun-$SID.log)"
-grep -m2 -A1 '^VIOLATION' /tmp/seedrun-$SID.log | cut -c1-400
+echo "$SID [$*]: exit=$rc $(grep -c '^VIOLATION' $LOG) violation lines; $(tail -1 $LOG)"
+grep -m2 -A1 '^VIOLATION' $LOG | cut -c1-400
